@@ -93,3 +93,6 @@ PROPS = {
 }
 
 PROPS["C15"]["family_tests"] = {"buffer-ops": "TestBuffer"}
+# real-time functional stress under the race detector (harness/stressf.go): exactly-once and accounting at the end
+PROPS["C01"]["stress_tests"] = ["TestStressFunctional"]
+PROPS["C03"]["stress_tests"] = ["TestStressFunctional"]
